@@ -382,6 +382,7 @@ func c7paths(v cue.Value, r *Rng, max int) []cue.Path {
 
 var (
 	c7rePredeclLabel  = regexp.MustCompile(`(?m)(^\s*|[{,]\s*|:\s+)(string|int|bytes|bool|float|number|uint|u?int(8|16|32|64|128)|float(32|64)|rune|len|close|and|or|div|mod|quo|rem|self|error|matchN|matchIf)[?!]?:`)
+	c7reQuotedPredecl = regexp.MustCompile(`"(string|int|bytes|bool|float|number|uint|u?int(8|16|32|64|128)|float(32|64)|rune|len|close|and|or|div|mod|quo|rem|self|error|matchN|matchIf)"[?!]?:`)
 	c7reKeywordTop    = regexp.MustCompile(`(?m)^(import|package)[?!]?:`)
 	c7reRefName       = regexp.MustCompile(`reference "?([^" ]+)"? not found`)
 	c7reLet           = regexp.MustCompile(`\blet\s+[A-Za-z_#]`)
@@ -411,6 +412,26 @@ func c7sanitizeLet(out string) bool {
 		}
 	}
 	return false
+}
+
+// c7closedByDefinitionOnly: the two canonical forms differ ONLY in closedness marks, and only at
+// nodes that are recursively closed (inside a definition) in the original. A lost `close()`
+// (non-recursive closedness) does not qualify.
+func c7closedByDefinitionOnly(a, b string) bool {
+	if c7reClosedFlags.ReplaceAllString(a, "}") != c7reClosedFlags.ReplaceAllString(b, "}") {
+		return false
+	}
+	fa := c7reClosedFlags.FindAllString(a, -1)
+	fb := c7reClosedFlags.FindAllString(b, -1)
+	if len(fa) != len(fb) {
+		return false
+	}
+	for i := range fa {
+		if fa[i] != fb[i] && !strings.HasSuffix(fa[i], "R") {
+			return false
+		}
+	}
+	return true
 }
 
 func c7kind5(kind string) string {
@@ -449,7 +470,7 @@ func c7classOf(pf c7profile, sub bool, path string, rt c7rt, src string) string 
 	if kind == "noparse" && c7reKeywordTop.MatchString(out) {
 		return "keyword-label-import-or-package-unquoted-at-file-level"
 	}
-	if c7rePredeclLabel.MatchString(out) {
+	if c7rePredeclLabel.MatchString(out) || (k5 == "internal-error" && strings.Contains(rt.detail, "refers to field against which it would be matched") && c7reQuotedPredecl.MatchString(src)) {
 		return "unquoted-label-shadows-predeclared-identifier"
 	}
 	if (strings.Contains(out, "] & {}") || strings.Contains(out, ") & {}")) && c7reLet.MatchString(out) && k5 != "unresolved" && k5 != "noparse" {
@@ -467,8 +488,9 @@ func c7classOf(pf c7profile, sub bool, path string, rt c7rt, src string) string 
 	if strings.Contains(out, "_#def") {
 		return "definition-wrapper-_#def-changes-or-breaks-the-value"
 	}
-	if k5 == "differs" && sub && c7reClosedFlags.ReplaceAllString(rt.canonA, "") == c7reClosedFlags.ReplaceAllString(rt.canonB, "") {
-		return "subvalue:closedness-of-enclosing-definition-lost"
+	if k5 == "differs" && sub && !strings.HasPrefix(rt.canonA, "{") && c7closedByDefinitionOnly(rt.canonA, rt.canonB) {
+		// only for values that are not structs themselves (Profile.Def wraps structs in _#def)
+		return "subvalue:closedness-lost-on-non-struct-value-inside-definition"
 	}
 	if m := c7reRefName.FindStringSubmatch(rt.detail); m != nil && k5 == "unresolved" {
 		name := m[1]
